@@ -251,8 +251,9 @@ impl<'a> StructureScanState<'a> {
             return;
         };
 
-        // Count for parent directory (if not excluded)
-        if !is_count_excluded {
+        // Count for parent directory (if not excluded). A file given as the scan root itself
+        // (depth 0) has no walked parent: a directory that was not walked has no count
+        if !is_count_excluded && depth > 0 {
             let parent_stats = self
                 .dir_entries
                 .entry(parent.to_path_buf())
